@@ -16,6 +16,8 @@
 #include <pistache/mailbox.h>
 #include <pistache/os.h>
 #include <poll.h>
+#include <sys/syscall.h>
+#include <unistd.h>
 
 using namespace vh;
 using namespace Pistache;
@@ -92,6 +94,45 @@ static std::string scenarioQueue(const std::vector<std::string>& w)
         for (size_t i = 0; i < S.threads[t]->labels.size(); ++i) { if (i) labels += ","; labels += S.threads[t]->labels[i]; }
     }
     return "popped=" + (ps.empty() ? "-" : ps) + " left=" + std::to_string(left) + " wake=" + (wake ? "1" : "0") + " labels=" + labels;
+}
+
+// ---------------------------------------------------------------------------------------------------
+// qsys <k> <n>: schedule forcing at the SYSTEM-CALL boundary, no hook in the library needed: the consumer runs its drain loop
+// on a real PollableQueue; right before its k-th read(2) of the queue's eventfd a producer pushes n items (the push runs inside
+// the interposed read, i.e. exactly between whatever the consumer did before the read and the read itself).  When the consumer
+// has finished the loop and goes back to poll: items still queued with no readiness pending are a missed wake-up.
+namespace {
+int g_injFd = -1, g_injAt = 0, g_injCount = 0; std::function<void()> g_inject;
+}
+extern "C" ssize_t read(int fd, void* buf, size_t count)
+{
+    if (fd == g_injFd && g_inject) {
+        if (++g_injCount == g_injAt) { auto f = g_inject; g_inject = nullptr; f(); }
+    }
+    return syscall(SYS_read, fd, buf, count);
+}
+static std::string scenarioQueueSys(const std::vector<std::string>& w)
+{
+    if (w.size() != 3) return "bad-op";
+    int k = atoi(w[1].c_str()), n = atoi(w[2].c_str());
+    Polling::Epoll poller;
+    PollableQueue<int> queue;
+    queue.bind(poller);
+    int efd = static_cast<int>(queue.tag().value());
+    std::vector<int> popped;
+    queue.push(1);                                   // the wake-up that starts the drain loop
+    g_injFd = efd; g_injAt = k; g_injCount = 0;
+    g_inject = [&] { for (int i = 0; i < n; ++i) queue.push(100 + i); };
+    int rounds = 0;
+    while (readable(efd) && rounds < 50) {           // the event loop: drain on every readiness notification
+        ++rounds;
+        for (;;) { auto e = queue.popSafe(); if (!e) break; popped.push_back(*e); }
+    }
+    bool injected = !g_inject;
+    g_inject = nullptr; g_injFd = -1;
+    bool wake = readable(efd);
+    int left = 0; for (;;) { auto e = queue.popSafe(); if (!e) break; ++left; }
+    return "popped=" + std::to_string(popped.size()) + " left=" + std::to_string(left) + " wake=" + (wake ? "1" : "0") + " injected=" + (injected ? "1" : "0");
 }
 
 // ---------------------------------------------------------------------------------------------------
@@ -213,6 +254,7 @@ int main()
 {
     std::map<std::string, Op> ops;
     ops["q"] = scenarioQueue;
+    ops["qsys"] = scenarioQueueSys;
     ops["p"] = scenarioPromise;
     return runLoop(ops, 20);
 }
